@@ -25,6 +25,13 @@ PROPS = {
             "rule": "all compositions of the acknowledgement sizes around the header/body edge for a small response, then random header sets, body writes and acknowledgement pieces"},
     "C19": {"count": {"quick": 2500, "thorough": 50000}, "trusted": SOCK_TRUSTED,
             "rule": "1-3 concatenated requests (valid, malformed, garbage) x segmentations x handler behaviours (respond+close at once, later, never) x post-close API calls x late transport events"},
+    "C05": {"count": {"quick": 3000, "thorough": 60000},
+            "trusted": SOCK_TRUSTED + ["parameter: QRegExp (indexIn, matchedLength, capturedTexts) — theorems hold for every matcher; the harness supplies Qt's answers for every pattern x every suffix of the path",
+                                        "modelled, not verified: QString::arg (lowest place marker, all occurrences, %L), QString::mid, QString::toUtf8"],
+            "rule": "random handler trees (depth <= 3, <= 3 sub-handlers, <= 2 redirects and <= 2 middleware per node) over a vocabulary of anchored/unanchored QRegExp patterns and templates with %1 %2 %L1 %%; request targets over a segment alphabet with escapes (%0d%0a, %25, %2f, non-ASCII); instrumented Handler/Middleware subclasses behind the real ServerPrivate::process on SimTcp"},
+    "C06": {"count": {"quick": 3000, "thorough": 60000},
+            "trusted": SOCK_TRUSTED + ["parameter: QRegExp and the middleware verdicts (theorems hold for every matcher and every verdict assignment)"],
+            "rule": "as C05 with 40% refusing middleware; refusers write a 403 marked with their id so the wire shows who answered"},
     "C16": {"count": {"quick": 400, "thorough": 6000},
             "trusted": ["translated from the C++ on every run (tools/cxx2lean.py, clang-14 AST): Range::from/to/length/isValid/dataSize and the numeric constructor; bridge theorems QhttpBridge.Range prove them equal to the hand model",
                         "modelled, not verified: the string constructor (QRegExp ^(\\d*)-(\\d*)$, QString::trimmed, QString::toInt) for ASCII text, QString::number; validated by the exhaustive/boundary correspondence runs",
@@ -45,6 +52,10 @@ LEVEL = {
          "SimTcp acknowledgements stand for QTcpSocket::bytesWritten."),
  "C19": ("Theorems: headersParsed at most once per run, the wire is frozen once the transport is closed, disconnect follows the last acknowledgement; tie: pipelined/garbage streams x handler behaviours x post-close calls on the real Socket.",
          "as C02/C03."),
+ "C05": ("Theorems about `route` for every tree, path, matcher and verdict assignment: exactly one terminal action when all middleware accept, equal to the documented order (first matching redirect, else first matching sub-handler with the matched prefix removed, else own processing), root sees path.drop 1, no root => 500; tie: random trees with real QRegExp behind the real Server glue, terminal action/Location/header set compared.",
+         "QRegExp is a parameter; sub-handler patterns are assumed start-anchored as documented for the prefix-removal clause; QString::arg modelled."),
+ "C06": ("Theorems: the middleware consulted are exactly the chain's up to and including the first refusal, in attachment order; after a refusal no redirect, sub-handler or processing action exists and the wire is the refuser's response; tie: as C05 with scripted refusing middleware.",
+         "as C05."),
  "C16": ("Theorems over Int (every offset and size): valid => 0<=from<=to<size, length, text; invalid => -1 and */size; valid iff one of the three shapes; string forms; copy/resize preserve bounds; the accessor code is regenerated from range.cpp on every run and bridge-proved equal to the model, and the compiled class is compared with the model on an exhaustive cube and on all short strings.",
          "string constructor modelled for ASCII text only; QRegExp/QString are Qt."),
 }
